@@ -225,18 +225,18 @@ func (p *c12Prim) cover(q Pt, mg float64) int {
 		}
 		// a join next to a segment of a hundredth of the half width (e.g. the 2 micrometre line a PostScript
 		// arc prepends when its computed start misses the current point) is not decided beyond the band
-		if d > p.hw-mg || (!p.closed[k] && endDist < 0.02*p.hw) {
-			near := false
-			for _, v := range p.shaky {
-				if q.Dist(v) < far {
-					near = true
-					break
-				}
+		// (a bevel or a limited mitre leaves part of the wedge between the two segments unpainted at any
+		// distance from the vertex, so that inside the band only "painted" is a verdict there)
+		nearShaky := false
+		for _, v := range p.shaky {
+			if q.Dist(v) < far {
+				nearShaky = true
+				break
 			}
-			if near {
-				res = covAmb
-				continue
-			}
+		}
+		if nearShaky && (d > p.hw-mg || (!p.closed[k] && endDist < 0.02*p.hw)) {
+			res = covAmb
+			continue
 		}
 		// exact region of the stroke (segment rectangles, joins, caps), decided when it is constant over the
 		// margin disc around q
@@ -255,7 +255,7 @@ func (p *c12Prim) cover(q Pt, mg float64) int {
 		if allIn {
 			return covIn
 		}
-		if anyIn {
+		if anyIn || nearShaky {
 			res = covAmb
 		}
 	}
